@@ -26,6 +26,12 @@ func main() {
 	switch os.Args[1] {
 	case "verify":
 		cmdVerify(os.Args[2:])
+	case "sweep":
+		v, err := loadAll(envOr("VERIF_REPO", "/repo"), allPatterns)
+		if err != nil {
+			os.Exit(2)
+		}
+		debugSweep(v)
 	case "list":
 		v, err := loadAll(envOr("VERIF_REPO", "/repo"), allPatterns)
 		if err != nil {
@@ -149,3 +155,14 @@ func trunc(s string, n int) string {
 	}
 	return s
 }
+
+func init() {
+	debugSweep = func(v *Verifier) {
+		v.sweep()
+		for k, why := range v.escapingChanFields {
+			fmt.Println("escaping", k, why)
+		}
+	}
+}
+
+var debugSweep func(v *Verifier)
